@@ -1,4 +1,5 @@
 import Martian.Lexer
+import Martian.Regex
 import Gen.Facts
 import Driver.Util
 
@@ -67,6 +68,25 @@ def handle (op : String) (args : List String) : Option String :=
   | "src0", [s] => do
     let b ← bytesOfHex s
     pure (actionStr (srcActionUnchecked b))
+  -- generic regex matcher on a regex SOURCE text (hex) and an input
+  | "re", [src, s] => do
+    let rs ← bytesOfHex src
+    let b ← bytesOfHex s
+    match Martian.Regex.parseCodes (rs.map UInt8.toNat) with
+    | none => pure "bad"
+    | some r => pure (optTok (Martian.Regex.pmatch r b))
+  -- the regenerated rule regexes through the generic matcher
+  | "rule", [name, s] => do
+    let b ← bytesOfHex s
+    let src ← (match name with
+      | "int" => some Gen.tokIntRegex
+      | "float" => some Gen.tokFloatRegex
+      | "string" => some Gen.tokStringRegex
+      | "id" => some Gen.tokIdRegex
+      | _ => none)
+    match Martian.Regex.parse src with
+    | none => pure "bad"
+    | some r => pure (optTok (Martian.Regex.pmatch r b))
   | _, _ => none
 
 end Driver.C08
